@@ -7,13 +7,16 @@ SPEC = dict(
                 "general (14 confirmed classes, one Lean witness theorem and one harness monitor each) and are proved "
                 "on explicit decidable classes: C15_agree_partial (kClassM s = 0: masker literal/identifier spans = "
                 "SqlLex's), C15_strip_agree_partial (kClassS t = 0: stripper comment spans = SqlLex's on literal-free "
-                "text), C15_roundtrip_partial (no masked quoted identifier and no '__' in the text). Only VALIDATED, not "
+                "text), C15_roundtrip_partial (no masked quoted identifier and no '__' in the text). For ALL inputs at token level: "
+                "C15_roundtrip_tokens (placeholders as atoms: first-occurrence / replace-all restoration returns the input; "
+                "quoted identifiers share a placeholder only when byte-identical, map key tied to the source by "
+                "C15_ident_dedup_key_tied). Only VALIDATED, not "
                 "proved: the round trip on the larger class 'no STR_/IDENT_ fragment' (never failed in the harness), "
                 "the composition mask-then-strip on one string (monitored on every generated string), and SqlLex = "
                 "DuckDB's lexer (generated select-lists are evaluated in DuckDB and must return the generator's "
                 "expected column names and values). The model is diffed against the real functions on every string."),
     level_note="proof (partial): full statements are refuted by witnesses; partial theorems on decidable classes",
-    technique="Lean 4 proofs over a byte-level model of the masker / unmasker / comment stripper and a reference lexer; regenerated placeholder formats, unmask modes and mask-before-strip call order; differential correspondence against the real functions; DuckDB as ground truth for token boundaries",
+    technique="Lean 4 proofs over a byte-level model of the masker / unmasker / comment stripper and a reference lexer; regenerated placeholder formats, identifier de-duplication key, unmask modes and mask-before-strip call order; differential correspondence against the real functions; DuckDB as ground truth for token boundaries",
     factgen=True,
     hooks={"internal/api": "go/hooks/api_c15"},
     harnesses=[dict(name="c15", tags="verif duckdb_arrow", timeout=dict(quick=900, thorough=3000))],
